@@ -304,7 +304,19 @@ impl Plugin for FileTransferPlugin {
                             "FLST serial={} file_name={} file_size={} file_creation_date()={} nr_packages={} buffer_size={}",
                             serial, file_name, file_size, file_creation_date, nr_packages, buffer_size
                         );*/
-                        if nr_packages > 0 && buffer_size > 0 {
+                        // a duplicate of the FLST for a transfer that is ongoing? (e.g. msg duplicated by the transport)
+                        let is_duplicate = self
+                            .transfers_idx
+                            .get(&(msg.ecu, msg.lifecycle, serial))
+                            .and_then(|idx| self.transfers.get(*idx))
+                            .is_some_and(|t| {
+                                t.state == FileTransferState::Started
+                                    && t.file_name == file_name
+                                    && t.file_size == file_size
+                                    && t.nr_packages == nr_packages
+                                    && t.buffer_size == buffer_size
+                            });
+                        if nr_packages > 0 && buffer_size > 0 && !is_duplicate {
                             let keep_data = self.allow_save
                                 || (if let Some(pat) = &self.auto_save_glob {
                                     pat.matches(&file_name)
